@@ -342,8 +342,12 @@ func boundToParam(top *ssa.Function, v ssa.Value, name string) bool {
 		return false
 	}
 	var cell ssa.Value = ld.X
-	if fv, ok := cell.(*ssa.FreeVar); ok {
-		// find the binding in the parent's MakeClosure
+	for depth := 0; depth < 5; depth++ {
+		fv, ok := cell.(*ssa.FreeVar)
+		if !ok {
+			break
+		}
+		// find the binding in the parent's MakeClosure (nested closures: repeat)
 		parent := fv.Parent().Parent()
 		if parent == nil {
 			return false
